@@ -10,7 +10,12 @@
 (* compressed payload.  Payload compression (Huffman, variable-length      *)
 (* integers) is the subject of C07/C08; here a payload is opaque and is    *)
 (* identified by `id`, its compressed size `csize` and, for messages, its  *)
-(* length modulo 4.                                                        *)
+(* length modulo 4 and its class `w` (0: content chosen for the compressed *)
+(* size; 1..15: content chosen by the number of bytes, 1..5, each 4-byte   *)
+(* group takes as a variable-length integer, at the largest length the     *)
+(* writer accepts or at 1000 groups -- "payload sizes up to the maximum"   *)
+(* has this second dimension for messages, which pass through the integer  *)
+(* packing before Huffman; the class does not change what must come back). *)
 (*                                                                         *)
 (* The reader is specified independently from the writer, as the parser of *)
 (* the documented header bytes with its own tick accumulator.  What the    *)
@@ -155,10 +160,11 @@ WriteTick(a) ==
   /\ Emit(a, [h |-> TickHdr(wprev, a.t, a.kf), body |-> 0, id |-> 0, m4 |-> 0],
           [k |-> "tick", t |-> a.t, kf |-> a.kf])
 
-\* a = [a |-> "data", kind, id, csize, m4]  (m4: message length mod 4, 0 for snapshots)
+\* a = [a |-> "data", kind, id, csize, m4, w]  (m4: message length mod 4, 0 for snapshots; w: see above)
 WriteData(a) ==
   /\ phase = "open"
   /\ a.kind \in {"snapshot", "delta", "message"} /\ a.csize \in 0..65535 /\ a.m4 \in 0..3
+  /\ a.w \in 0..15 /\ (a.w > 0 => a.kind = "message")
   /\ Emit(a, [h |-> DataHdr(a.kind, a.csize), body |-> a.csize, id |-> a.id, m4 |-> a.m4],
           [k |-> a.kind, id |-> a.id, pad |-> IF a.kind = "message" THEN Pad4(a.m4) ELSE 0])
   /\ UNCHANGED wprev
